@@ -4,6 +4,8 @@ go 1.25
 
 require (
 	github.com/anishathalye/porcupine v1.3.0
+	github.com/prometheus/client_golang v1.16.0
+	github.com/prometheus/client_model v0.6.1
 	github.com/samber/lo v1.52.0
 	github.com/samber/ro v0.2.0
 	github.com/samber/ro/ee v0.0.0
@@ -34,8 +36,6 @@ require (
 	github.com/golang/protobuf v1.5.3 // indirect
 	github.com/matttproud/golang_protobuf_extensions v1.0.4 // indirect
 	github.com/pkg/errors v0.9.1 // indirect
-	github.com/prometheus/client_golang v1.16.0 // indirect
-	github.com/prometheus/client_model v0.6.1 // indirect
 	github.com/prometheus/common v0.44.0 // indirect
 	github.com/prometheus/procfs v0.15.1 // indirect
 	golang.org/x/text v0.22.0 // indirect
